@@ -419,7 +419,8 @@ class Parallel:
                         for result in self._run_callbacks(in_thread_result)
                     ]
 
-                if not pool:
+                if not pool and queue_empty:
+                    # all workers are gone; leave only once the results they queued have been drained
                     break
 
                 for name in retired_workers:
